@@ -206,6 +206,8 @@ class Unit:
                 raise X.ExtractError('%s: presub /%s/ fired %d < %d' % (self.name, pat, n, mn))
         text = rw.generic(text, o)
         text = rw.tmpl_types(text, o)
+        if o.get('rangefor'):
+            text = rw.rangefor(text)
         if o.get('iters'):
             text = rw.iterators(text, o['iters'])
         if o.get('vec'):
